@@ -1144,6 +1144,13 @@ int main(int argc, char *argv[])
    else set_auto_spurious_weights(testS,testwc,testeq);
  }
 
+ if (tmax==0 && imax==0 && bmax==0) {
+   // no stopping criterion is in force: use the documented default, bmult
+   int nq=0;
+   for (i=0; i<N; i++) if (testeq[i]==i+1 && (testwc[i]>i+1 || testwc[i]==-1)) nq++; 
+   bmax = bmult*nq+1;
+ }
+
  constrain(testS,testwc,testeq);
  if (!test_consistency(testS,testSt,testwc,testeq)) {
      fprintf(stderr,"ERROR: input files have non-explicit implications.\n\n"); exit(-1); 
@@ -1190,7 +1197,7 @@ int main(int argc, char *argv[])
      if (watch && (bmax>0)) printf(" (bored=%d,bmax=%d)", bored, bmax);
      if (watch) printf("\n");
      if (trace) printf("%s\n",testS);
-     if (new_score < old_score) bored=0;
+     if (new_score < old_score) bored=0; else bored++;  // a score-neutral move is no progress either
      old_score = new_score; 
      fflush(stdout);
    } else {
